@@ -242,6 +242,10 @@ def genItems (depth : Nat) : Nat → R → SL × R
   | 0, s => (.nil, s)
   | k+1, s =>
     if sel s 3 == 0 then let d := genDcl true (lcg s); let r := genItems depth k d.2; (.consD d.1 r.1, r.2)
+    else if sel s 11 == 0 then
+      -- a `#pragma` line between block items, with or without text
+      let r := genItems depth k (lcg (lcg s))
+      (.consP (if sel (lcg s) 3 == 0 then none else some (pick ["omp parallel for", "pack(1)", "once  x"] (lcg s))) r.1, r.2)
     else let st := genS depth (lcg s); let r := genItems depth k st.2; (.cons st.1 r.1, r.2)
 
 def genParam (x : String) (s : R) : PItem × R :=
@@ -302,8 +306,15 @@ def genProgram (depth n : Nat) (s : R) : List Ext × R :=
     | k+1, s, acc => let e := genExt depth k (lcg s); go k e.2 (e.1 :: acc)
   go n s []
 
+/-- the tokens as text: a blank between two tokens, a `#pragma` directive on a line of its own -/
+def renderToks : List Tk → String
+  | [] => ""
+  | ("PPPRAGMA", _) :: ("PPPRAGMASTR", v) :: r => "\n#pragma " ++ v ++ "\n" ++ renderToks r
+  | ("PPPRAGMA", _) :: r => "\n#pragma\n" ++ renderToks r
+  | t :: r => t.2 ++ " " ++ renderToks r
+
 /-- program text and the `FileAST` of `parse_translation_unit` (coordinate-free dump) -/
 def tuCase (l : List Ext) : String × String :=
-  (" ".intercalate ((extsFlat l).map (·.2)), (mk .FileAST none [.list (extsVals 0 l)]).dump false)
+  (renderToks (extsFlat l), (mk .FileAST none [.list (extsVals 0 l)]).dump false)
 
 end PycModel.TuGen
